@@ -17,7 +17,10 @@ From Coq Require Import List NArith ZArith Bool Arith.
 Import ListNotations.
 From Verif Require Import Base.Val.
 
-Record env := { pkey : N -> N; pslot : N -> N; bkey : N -> N; bmatch : N -> N -> bool }.
+(* peq: the equality class of a package object.  `is` (PigeonHoledSlots.remove_slotting) compares
+   ids; dict/set keys (pkg_choices, vdb_filter) compare and hash by value: packages compare by cpv,
+   so the installed a/b-1 and the a/b-1 of a source repo are two objects with the same peq. *)
+Record env := { pkey : N -> N; pslot : N -> N; bkey : N -> N; bmatch : N -> N -> bool; peq : N -> N }.
 
 (* entries of plan_state.plan *)
 Inductive op :=
@@ -172,15 +175,15 @@ Definition remove_pkg_blockers (c : N) : M unit := fun s => decref_all c (rb_of 
 (* ------------------------------------------------------------------ revert of a plan entry *)
 Definition revert (o : op) : M unit :=
   match o with
-  | OAdd c p f => remove_slotting p ;;; pc_del p
+  | OAdd c p f => remove_slotting p ;;; pc_del (peq E p)
   | OHardref r => fr_remove r
   | OBackref c p => ret tt
-  | ORemove c p => fill_slotting p true ;;; pc_set p c ;;; vf_remove p
+  | ORemove c p => fill_slotting p true ;;; pc_set (peq E p) c ;;; vf_remove (peq E p)
   | OReplace c p f old oldc fo =>
       remove_slotting p ;;;
       l <- fill_slotting old fo ;;
       if Bool.eqb (negb (is_nil l)) fo
-      then pc_del p ;;; pc_set old oldc ;;; vf_remove old
+      then pc_del (peq E p) ;;; pc_set (peq E old) oldc ;;; vf_remove (peq E old)
       else raise AssertionError
   | OIncref c b k => incref_revert c b k
   | ODecref c b k => decref_revert c b k
@@ -218,11 +221,11 @@ Inductive api :=
 Definition add_apply (c p : N) (f : bool) : M (option (list item)) :=
   l <- fill_slotting p f ;;
   if negb (is_nil l) && negb f then ret (Some l)
-  else pc_set p c ;;; plan_append (OAdd c p f) ;;; ret None.
+  else pc_set (peq E p) c ;;; plan_append (OAdd c p f) ;;; ret None.
 (* remove_op.apply (state.py:183) *)
 Definition remove_apply (c p : N) : M (option (list item)) :=
-  remove_slotting p ;;; remove_pkg_blockers c ;;; pc_del p ;;;
-  plan_append (ORemove c p) ;;; vf_add p ;;; ret None.
+  remove_slotting p ;;; remove_pkg_blockers c ;;; pc_del (peq E p) ;;;
+  plan_append (ORemove c p) ;;; vf_add (peq E p) ;;; ret None.
 (* replace_op.apply (state.py:205) *)
 Definition replace_apply (c p : N) (f : bool) : M (option (list item)) :=
   rp <- gets (fun s => length (plan s)) ;;
@@ -232,7 +235,7 @@ Definition replace_apply (c p : N) (f : bool) : M (option (list item)) :=
   | Some old =>
       fo <- gets (fun s => negb (is_nil (check_limiters old s))) ;;
       remove_slotting old ;;;
-      oco <- gets (fun s => lookup old (pc s)) ;;
+      oco <- gets (fun s => lookup (peq E old) (pc s)) ;;
       match oco with
       | None => raise KeyError
       | Some oc =>
@@ -242,8 +245,8 @@ Definition replace_apply (c p : N) (f : bool) : M (option (list item)) :=
           then l2 <- fill_slotting old false ;;
                backtrack rp ;;;
                if negb (is_nil l2) then raise AssertionError else ret (Some l)
-          else pc_del old ;;; pc_set p c ;;; plan_append (OReplace c p f old oc fo) ;;;
-               vf_add old ;;; ret None
+          else pc_del (peq E old) ;;; pc_set (peq E p) c ;;; plan_append (OReplace c p f old oc fo) ;;;
+               vf_add (peq E old) ;;; ret None
       end
   end.
 
@@ -311,9 +314,9 @@ Definition snap_ms (nk nc : nat) (s : state) : list (list N) :=
   ++ map (fun k => map snd (filter (fun kb => N.eqb (fst kb) k) (lims s))) (upto nk)
   ++ map (fun c => map (fun bk => (fst bk * 8 + snd bk)%N) (rb_of c s)) (upto nc).
 Definition snap_pos (np nb nr : nat) (s : state) : list (list N) :=
-  [ map (fun p => match lookup p (pc s) with Some c => (c + 1)%N | None => 0%N end) (upto np);
+  [ map (fun p => match lookup (peq E p) (pc s) with Some c => (c + 1)%N | None => 0%N end) (upto np);
     map (fun b => N.of_nat (countN b (brc s))) (upto nb);
-    map (fun p => bN (memN p (vf s))) (upto np);
+    map (fun p => bN (memN (peq E p) (vf s))) (upto np);
     map (fun r => N.of_nat (countN r (fr s))) (upto nr);
     [N.of_nat (length (plan s))] ].
 Definition snapshot (nk np nc nb nr : nat) (from : nat) (s : state) : list (list N) :=
@@ -322,12 +325,13 @@ Definition snapshot (nk np nc nb nr : nat) (from : nat) (s : state) : list (list
 End WithEnv.
 
 (* the environment as data: per package its key and slot; per blocker the packages it matches *)
-Record cfg := { ckeys : list N; cslots : list N; cbkeys : list N; cmatch : list (list bool) }.
+Record cfg := { ckeys : list N; cslots : list N; cbkeys : list N; cmatch : list (list bool); ceqs : list N }.
 Definition env_of (c : cfg) : env :=
   {| pkey := fun p => nth (N.to_nat p) (ckeys c) 0%N;
      pslot := fun p => nth (N.to_nat p) (cslots c) 0%N;
      bkey := fun b => nth (N.to_nat b) (cbkeys c) 0%N;
-     bmatch := fun b p => nth (N.to_nat p) (nth (N.to_nat b) (cmatch c) []) false |}.
+     bmatch := fun b p => nth (N.to_nat p) (nth (N.to_nat b) (cmatch c) []) false;
+     peq := fun p => nth (N.to_nat p) (ceqs c) p |}.
 
 Definition NK := 2%nat.
 Definition NC := 3%nat.
